@@ -140,3 +140,28 @@ func verifHosts(l *roundRobinLoadBalancer) []*Host { return l.hosts.Load().([]*H
 //@   trusted
 //@   ensures result1 == nil ==> result0 != nil && fresh(result0) && result0.config.Version == config.Version && result0.config.Keyspace == config.Keyspace && result0.config.Compression == config.Compression
 //@   modifies nothing
+
+// ---------------------------------------------------------------------------------------------
+// Backend path as seen by proxy.request (C01, C04, C05)
+//   $sends  number of times a request frame was handed to a backend connection (successful Send)
+// ---------------------------------------------------------------------------------------------
+
+//@ ghostvar $sends int
+
+// Session.Send: either the request is registered on one backend connection (one more send) or an
+// error is returned and nothing was sent. No reply is produced synchronously.
+//@ func proxycore.Session.Send [C01, C04, C05]
+//@   trusted
+//@   requires s != nil && host != nil
+//@   ensures result == nil ==> $sends == old($sends) + 1
+//@   ensures result != nil ==> $sends == old($sends)
+//@   preserves-held
+//@   modifies *, $sends
+
+// QueryPlan.Next (abstractly): a plan has a finite number of hosts left; each non-nil result uses one.
+//@ iface proxycore.QueryPlan.Next [C05]
+//@   requires recv.$remaining >= 0
+//@   ensures recv.$remaining >= 0
+//@   ensures result != nil ==> recv.$remaining == old(recv.$remaining) - 1
+//@   ensures result == nil ==> recv.$remaining == old(recv.$remaining)
+//@   modifies nothing, recv.$remaining
